@@ -16,6 +16,7 @@ run_one() {
     clauses="$(grep -E '^  clause=' "/tmp/wtm/${RUNID}_$d.$p.log" | sed 's/^  clause=\([A-Za-z._]*\).*/\1/' | sort -u | tr '\n' ' ')"
     case $rc in 1) v=caught;; 0) v=MISSED;; *) v="ERROR($rc)";; esac
     echo "$d check=$p $v $clauses"
+    echo "$d check=$p $v $clauses" >> /verif/seeded/matrix_log.txt
   done
   git -C /repo worktree remove --force "$WT"; rm -rf "/tmp/wtm/out_${RUNID}_$d"
 }
